@@ -279,7 +279,15 @@ func perturb(t *rapid.T, cs *api.Case) {
 		v.RawIPs = [][]byte{c.Address[:], c.Mask[:], c.Gateway[:]}
 		i := rapid.IntRange(0, 2).Draw(t, "ips.which")
 		src := [][4]byte{c.Address, c.Mask, c.Gateway}[i]
-		switch rapid.IntRange(0, 6).Draw(t, "ips.kind") {
+		switch rapid.IntRange(0, 9).Draw(t, "ips.kind") {
+		case 7: // 16-byte netmask forms: twelve 0xff bytes and the IPv4 mask (what net.CIDRMask(96+n, 128) gives) - not an IPv4 value
+			v.RawIPs[i] = append([]byte{0xff, 0xff, 0xff, 0xff, 0xff, 0xff, 0xff, 0xff, 0xff, 0xff, 0xff, 0xff}, src[:]...)
+		case 8:
+			v.RawIPs[i] = []byte{0xff, 0xff, 0xff, 0xff, 0xff, 0xff, 0xff, 0xff, 0xff, 0xff, 0xff, 0xff, 0xff, 0xff, 0xff, 0}
+		case 9: // other 16-byte values that merely END in the IPv4 bytes
+			pre := rapid.SampledFrom([][]byte{{0, 0, 0, 0, 0, 0, 0, 0, 0, 0, 0xff, 0xfe}, {0, 0, 0, 0, 0, 0, 0, 0, 0, 0, 0, 0xff}, {0x00, 0x64, 0xff, 0x9b, 0, 0, 0, 0, 0, 0, 0, 0}, {0x20, 0x02, 0, 0, 0, 0, 0, 0, 0, 0, 0, 0},
+				{0, 0, 0, 0, 0, 0, 0, 0, 0, 1, 0xff, 0xff}, {0xfe, 0x80, 0, 0, 0, 0, 0, 0, 0, 0, 0, 0}}).Draw(t, "ips.prefix")
+			v.RawIPs[i] = append(append([]byte(nil), pre...), src[:]...)
 		case 0:
 			v.RawIPs[i] = nil
 		case 1:
@@ -456,7 +464,8 @@ func genCfgCase(t *rapid.T) cfgCase {
 	if rapid.Bool().Draw(t, "listen") {
 		cfg.HasListen, cfg.ListenIP, cfg.ListenPort = true, [4]byte{192, 168, 1, 5}, 60001
 	}
-	ctrl := hook.DeviceCfg{Name: "Alpha", Serial: call.Serial, TZ: gen.DeviceTZ(t, "tz"), ViaNew: rapid.Bool().Draw(t, "via.new"), Doors: []string{"D1", "D2", "D3", "D4"}}
+	ctrl := hook.DeviceCfg{Name: rapid.SampledFrom([]string{"Alpha", "", "  ", "ünï côde"}).Draw(t, "name"), Serial: call.Serial, TZ: gen.DeviceTZ(t, "tz"), ViaNew: rapid.Bool().Draw(t, "via.new"),
+		Doors: [][]string{nil, {}, {"D1"}, {"D1", "D2"}, {"D1", "D2", "D3"}, {"D1", "D2", "D3", "D4"}, {"D1", "D2", "D3", "D4", "D5"}, {"", "", "", ""}}[rapid.IntRange(0, 7).Draw(t, "doors")]}
 	kind := rapid.IntRange(0, 3).Draw(t, "controller")
 	switch kind {
 	case 1:
